@@ -1024,6 +1024,10 @@ func init() {
 		r.vos.syncFile(f)
 		return nil
 	}
+	I[zz+"PokeDelete"] = func(fr *frame, fn *ssa.Function, args []Value) Value {
+		delete(fr.r.vos.files, argStr(args[0]))
+		return nil
+	}
 	I[zz+"PeekFile"] = func(fr *frame, fn *ssa.Function, args []Value) Value {
 		r := fr.r
 		f := r.vos.files[argStr(args[0])]
